@@ -52,6 +52,11 @@ theorem encField_nums (s : FSpec) (v : Val) : ∀ f ∈ encField s v, f.1 = s.nu
   cases v with
   | n v => unfold encField at hf; simp only at hf; split at hf <;> simp_all
   | b b => unfold encField at hf; simp only at hf; split at hf <;> simp_all
+  | l xs =>
+    unfold encField at hf
+    simp only [List.mem_map] at hf
+    obtain ⟨b, _, rfl⟩ := hf
+    rfl
 
 theorem encFlat_nums : ∀ (S : List FSpec) (vs : List Val), ∀ f ∈ encFlat S vs, f.1 ∈ S.map (·.num)
   | [], vs, f, hf => by simp [encFlat] at hf
@@ -71,6 +76,7 @@ def ValOk : FSpec → Val → Prop
   | ⟨_, .i32⟩, .n v => v < 2 ^ 64
   | ⟨_, .bytes⟩, .b b => b.length < 2 ^ 64
   | ⟨_, .str⟩, .b b => b.length < 2 ^ 64 ∧ isUtf8 b = true
+  | ⟨_, .rbytes⟩, .l xs => ∀ b ∈ xs, b.length < 2 ^ 64
   | _, _ => False
 
 /-- a value list matching a schema -/
@@ -82,6 +88,14 @@ def Canon : List FSpec → List Val → Prop
 /-- admissible schema: distinct valid field numbers -/
 def SchemaOk (S : List FSpec) : Prop :=
   (S.map (·.num)).Nodup ∧ ∀ s ∈ S, 1 ≤ s.num ∧ s.num ≤ 536870911
+
+theorem lens_map_len (num : Nat) (xs : List Bytes) :
+    lens (xs.map fun b => ((num, WVal.len b) : Field)) num = xs := by
+  induction xs with
+  | nil => rfl
+  | cons x xs ih =>
+    simp only [lens, List.map_cons, List.filterMap_cons] at ih ⊢
+    simp [ih]
 
 theorem decField_encField (s : FSpec) (v : Val) (h : ValOk s v) :
     decField (encField s v) s = some v := by
@@ -108,6 +122,9 @@ theorem decField_encField (s : FSpec) (v : Val) (h : ValOk s v) :
     by_cases hx : x = 0
     · subst hx; simp [decField, encField, lastVarint, varints]
     · simp [decField, encField, lastVarint, varints, hx]
+  · rename_i xs  -- rbytes
+    simp only [decField, encField]
+    rw [lens_map_len]
 
 theorem decFlat_encFlat_frame : ∀ (S : List FSpec) (vs : List Val) (pre : List Field),
     (S.map (·.num)).Nodup → Canon S vs → (∀ f ∈ pre, f.1 ∉ S.map (·.num)) →
@@ -146,8 +163,19 @@ theorem encField_fieldOk (s : FSpec) (v : Val) (hn : 1 ≤ s.num ∧ s.num ≤ 5
   intro f hf
   rcases s with ⟨num, k⟩
   have p32 : (2:Nat) ^ 32 < 2 ^ 64 := by decide
-  cases k <;> cases v <;> simp only [ValOk] at hv <;>
-    (unfold encField at hf; simp only at hf; split at hf) <;> simp_all [FieldOk] <;> omega
+  cases v with
+  | l xs =>
+    cases k <;> simp only [ValOk] at hv
+    unfold encField at hf
+    simp only [List.mem_map] at hf
+    obtain ⟨b, hb, rfl⟩ := hf
+    exact ⟨hn.1, hn.2, hv b hb⟩
+  | n x =>
+    cases k <;> simp only [ValOk] at hv <;>
+      (unfold encField at hf; simp only at hf; split at hf) <;> simp_all [FieldOk] <;> omega
+  | b x =>
+    cases k <;> simp only [ValOk] at hv <;>
+      (unfold encField at hf; simp only at hf; split at hf) <;> simp_all [FieldOk] <;> omega
 
 theorem encFlat_fieldOk : ∀ (S : List FSpec) (vs : List Val),
     (∀ s ∈ S, 1 ≤ s.num ∧ s.num ≤ 536870911) → Canon S vs → ∀ f ∈ encFlat S vs, FieldOk f
